@@ -36,6 +36,14 @@ NEEDS = {
  "C16-b": "a call whose argument fails to analyse un-declares the callee for bodies analysed later",
  "C17-b": "an if with a logic condition in a function analysed after an earlier body recorded an error (global error list consulted)",
  "C18-b": "a non-empty plain else body (analysed in the if-body's block state)",
+ "C03-b": "a parameter or let with the name of a global constant, then read (constants resolved before values in expression_operation)",
+ "C04-b": "a parameter literally named like a generated name (y.0) plus a fresh let y of another type: parameters' inner names are no longer registered, so the let reuses y.0",
+ "C06-b": "a global constant read two or more block levels below the function body (ExpressionConst forwarded to the direct parent's stack only)",
+ "C07-b": "an explicitly bracketed sub-expression as the right operand of a folded non-root operation whose inner operators do not all bind tighter (bracket spliced into the chain)",
+ "C08-b": "an if guarded by a chained logic condition (a && b): LogicCondition forwarded to the parent block with result and right registers transposed",
+ "C12-b": "a parameter named like a generated name (x.0) and a let x in the same function (init_func_params no longer registers the inner name)",
+ "C19-b": "two extension leaves evaluated back to back that push equal custom instructions (the stack drops an extension instruction equal to its top entry)",
+ "C20-b": "a program with code after break / continue / return, whose error list is then serialised (serde(skip) on the three ForbiddenCodeAfter… kinds)",
 }
 def sh(cmd, **kw):
     return subprocess.run(cmd, shell=True, stdout=subprocess.PIPE, stderr=subprocess.STDOUT, text=True, **kw).stdout
